@@ -661,6 +661,10 @@ def do_search(spec, record_solver=False, select=False, after_phase=None):
     from tak import mcts
     from tak.model import encoding
     size = spec["size"]
+    # simulation_limit = 0 means "no simulation limit" to analyze_tree (with time_limit = 0 the loop never ends): the
+    # property's "stops at the limit" quantifies over positive budgets, so a spec never asks for less than 1
+    for ph in spec["phases"]:
+        ph["limit"] = max(1, int(ph["limit"]))
     pos = start_position(size, spec["opening"], spec.get("start"))
     n = encoding.n_moves_for_size(size)
     rec = Recorder(spec)
@@ -1247,7 +1251,7 @@ def gen_specs(run, count, sizes, max_budget, transformer=2, smash=(), near_termi
         phases = [{"path": [], "limit": budget}]
         r = k % 5
         if r == 1:      # continue on the child a move selection would take
-            phases.append({"path": [rng.randrange(1000)], "limit": budget // 2 + rng.randint(0, budget)})
+            phases.append({"path": [rng.randrange(1000)], "limit": max(1, budget // 2 + rng.randint(0, budget))})
         elif r == 2:    # same tree, larger limit; then a limit already reached
             phases.append({"path": [], "limit": budget + rng.randint(1, 12)})
             phases.append({"path": [], "limit": max(1, budget // 2)})
